@@ -532,7 +532,15 @@ fn router_key_s() -> BoxedStrategy<PayloadSpec> {
 }
 
 fn aspa_s() -> BoxedStrategy<PayloadSpec> {
-    (asn_s(), prop_oneof![4 => prop::collection::vec(asn_s(), 0..6), 1 => prop::collection::vec(dense_u32(), 0..40)])
+    (
+        asn_s(),
+        prop_oneof![
+            4000 => prop::collection::vec(asn_s(), 0..6),
+            1000 => prop::collection::vec(dense_u32(), 0..40),
+            // up to the largest provider set an ASPA item can carry (16380)
+            1 => (16_370u32..=16_380, any::<u32>()).prop_map(|(n, b)| (0..n).map(|i| b.wrapping_add(i)).collect::<Vec<u32>>()),
+        ],
+    )
         .prop_map(|(customer, providers)| PayloadSpec::Aspa { customer, providers })
         .boxed()
 }
@@ -580,12 +588,111 @@ fn drop_strategy(_: Tier) -> BoxedStrategy<DropCase> {
 pub struct FileCase {
     pub filters: FiltersSpec,
     pub assertions: AssertionsSpec,
+    /// seed of the foreign spelling of the file's JSON (member order, white space,
+    /// escaped characters, read sizes)
+    #[serde(default)]
+    pub respell: u64,
+}
+
+fn mix(st: &mut u64) -> u64 {
+    *st = st.wrapping_add(0x9E37_79B9_7F4A_7C15);
+    let mut z = *st;
+    z = (z ^ (z >> 30)).wrapping_mul(0xBF58_476D_1CE4_E5B9);
+    z = (z ^ (z >> 27)).wrapping_mul(0x94D0_49BB_1331_11EB);
+    z ^ (z >> 31)
+}
+
+fn ws(st: &mut u64, out: &mut String) {
+    match mix(st) % 8 {
+        0 => out.push(' '),
+        1 => out.push('\n'),
+        2 => out.push_str("\r\n\t "),
+        _ => {}
+    }
+}
+
+fn respell_string(s: &str, st: &mut u64, out: &mut String) {
+    out.push('"');
+    let escape_some = mix(st) % 3 == 0;
+    for ch in s.chars() {
+        let force = matches!(ch, '"' | '\\') || (ch as u32) < 0x20;
+        if force || (escape_some && mix(st) % 4 == 0) {
+            let mut buf = [0u16; 2];
+            for u in ch.encode_utf16(&mut buf) {
+                out.push_str(&format!("\\u{:04x}", u));
+            }
+        } else if ch == '/' && mix(st) % 5 == 0 {
+            out.push_str("\\/");
+        } else {
+            out.push(ch);
+        }
+    }
+    out.push('"');
+}
+
+/// The same JSON value in another, equally valid spelling: object members in another
+/// order, insignificant white space, characters of strings written as escapes.
+fn respell_json(v: &serde_json::Value, st: &mut u64, out: &mut String) {
+    use serde_json::Value;
+    ws(st, out);
+    match v {
+        Value::Object(m) => {
+            let mut members: Vec<(&String, &Value)> = m.iter().collect();
+            for i in (1..members.len()).rev() {
+                let j = (mix(st) % (i as u64 + 1)) as usize;
+                members.swap(i, j);
+            }
+            out.push('{');
+            for (i, (k, val)) in members.iter().enumerate() {
+                if i > 0 {
+                    out.push(',');
+                }
+                ws(st, out);
+                respell_string(k, st, out);
+                ws(st, out);
+                out.push(':');
+                respell_json(val, st, out);
+            }
+            ws(st, out);
+            out.push('}');
+        }
+        Value::Array(a) => {
+            out.push('[');
+            for (i, val) in a.iter().enumerate() {
+                if i > 0 {
+                    out.push(',');
+                }
+                respell_json(val, st, out);
+            }
+            ws(st, out);
+            out.push(']');
+        }
+        Value::String(s) => respell_string(s, st, out),
+        other => out.push_str(&other.to_string()),
+    }
+    ws(st, out);
+}
+
+/// A reader handing out the text in pieces of 1..=n octets.
+struct PieceReader<'a> {
+    data: &'a [u8],
+    st: u64,
+    max: usize,
+}
+
+impl std::io::Read for PieceReader<'_> {
+    fn read(&mut self, buf: &mut [u8]) -> std::io::Result<usize> {
+        let n = (1 + (mix(&mut self.st) as usize) % self.max).min(buf.len()).min(self.data.len());
+        buf[..n].copy_from_slice(&self.data[..n]);
+        self.data = &self.data[n..];
+        Ok(n)
+    }
 }
 
 fn file_strategy(_: Tier) -> BoxedStrategy<FileCase> {
     let with_c = |s: BoxedStrategy<PayloadSpec>| prop::collection::vec((s, comment_s()), 0..=5);
-    (filters_s(comment_s), with_c(origin_s()), with_c(router_key_s()), prop::option::weighted(0.7, with_c(aspa_s())))
-        .prop_map(|(filters, prefix, bgpsec, aspa)| FileCase { filters, assertions: AssertionsSpec { prefix, bgpsec, aspa } })
+    (filters_s(comment_s), with_c(origin_s()), with_c(router_key_s()), prop::option::weighted(0.7, with_c(aspa_s())), any::<u64>())
+        .prop_map(|(filters, prefix, bgpsec, aspa, respell)| FileCase { filters, assertions: AssertionsSpec { prefix, bgpsec, aspa }, respell })
         .boxed()
 }
 
@@ -616,6 +723,33 @@ fn run_json(c: &FileCase, obs: &mut Obs) -> CheckResult {
     file.to_writer_pretty(&mut w).map_err(|e| Fail::new(format!("to_writer_pretty: {}", e)))?;
     let wt = String::from_utf8(w).map_err(|e| Fail::new(format!("to_writer_pretty wrote invalid UTF-8: {}", e)))?;
     check_back("to_writer_pretty/from_str", &wt, SlurmFile::from_str(&wt))?;
+
+    // The same document as a foreign writer might spell it (RFC 8259: members of an object
+    // are unordered, white space between tokens is insignificant, any character may be
+    // written as an escape), handed over whole and in pieces: the same file.
+    {
+        let value: serde_json::Value = serde_json::from_str(&compact).map_err(|e| Fail::new(format!("to_string is not JSON: {}", e)))?;
+        let mut st = c.respell;
+        let mut text = String::new();
+        respell_json(&value, &mut st, &mut text);
+        let again: serde_json::Value = serde_json::from_str(&text).map_err(|e| Fail::new(format!("harness: respelled JSON invalid: {}", e)))?;
+        ensure!(again == value, "harness: respelling changed the JSON value");
+        let judge = |form: &str, back: Result<SlurmFile, serde_json::Error>| -> CheckResult {
+            match back {
+                Ok(b) => {
+                    ensure_sig!(b == file, "json-foreign-spelling", "{}: the same JSON document in another spelling parses to a different file.\n json: {}\n parsed:   {:?}\n original: {:?}", form, text, b, file);
+                    let (x, y): (Vec<rtr::Payload>, Vec<rtr::Payload>) = (b.assertions.iter_payload().collect(), file.assertions.iter_payload().collect());
+                    ensure_sig!(x == y, "json-foreign-spelling", "{}: payload of the re-spelled file {:?}, of the original {:?}", form, x, y);
+                    Ok(())
+                }
+                Err(e) => Err(Fail::sig("json-foreign-spelling", format!("{}: the same JSON document in another spelling is refused: {}\n json: {}", form, e, text))),
+            }
+        };
+        judge("from_str (members reordered, white space, escapes)", SlurmFile::from_str(&text))?;
+        let max = [1usize, 2, 7, 64, 1000, 8192, 10_000][(mix(&mut st) % 7) as usize];
+        judge("from_reader (in pieces)", SlurmFile::from_reader(PieceReader { data: text.as_bytes(), st, max }))?;
+        judge("from_reader (own text in pieces)", SlurmFile::from_reader(PieceReader { data: compact.as_bytes(), st, max }))?;
+    }
 
     // The same content in a file that was created empty and then filled through
     // its public fields (whatever `new` derived from its arguments is stale):
@@ -687,7 +821,7 @@ pub fn property() -> Property {
         assumptions: vec![
             "prefix coverage reference: same family and address-range inclusion on integers (the C13 model)",
             "iter_payload is compared per payload kind in assertion order; the interleaving of kinds is not part of the statement",
-            "generated files stay inside the documented domain: valid prefixes (host bits zero), max length within [len, family], at most 40 providers, key info below 2^32 bytes",
+            "generated files stay inside the documented domain: valid prefixes (host bits zero), max length within [len, family], at most 16380 providers, key info below 2^32 bytes",
         ],
         subs: vec![
             EnumSub { name: "drop-enum", count: count_drop_enum, make: make_drop_enum, run: run_drop, exhaustive: true }.boxed(),
